@@ -319,6 +319,7 @@ class Gen:
         self.nfuncs = nfuncs
         self.sigs = []            # (name, ret, params, recursive)
         self.stats = {}
+        self.need_nx = False
 
     def note(self, k):
         self.stats[k] = self.stats.get(k, 0) + 1
@@ -660,6 +661,21 @@ class Gen:
             b = self.simple_stmt(env, fidx)
             self.note("ternary")
             return [("tern", c, a, b)]
+        if ret != "void" and not is_arr(ret) and k < 0.78 and depth >= 1:
+            # a search loop: the step is a call, the body may return from inside the loop
+            x = self.fresh(env, used)
+            used.add(x)
+            self.need_nx = True
+            n = r.choice([1, 2, 3, 4])
+            env2 = dict(env)
+            env2[x] = ("int", False, True)
+            e = self.ret_expr(ret, env2, fidx)
+            if e is not None:
+                cond = ("bin", r.choice(["==", ">=", ">"]), ("v", x), ("i", r.randint(0, 3)))
+                body = ("block", [("echo", ("v", x)), ("if", cond, ("block", [("ret", e)]), None)])
+                self.note("for-call-step-return")
+                return [("for", ("decl", False, "int", x, ("i", 0)), ("bin", "<", ("v", x), ("i", n)),
+                         ("expr", ("asg", x, ("call", "nx", [("v", x)]))), body)]
         if k < 0.85:
             # counted for loop
             x = self.fresh(env, used)
@@ -777,6 +793,8 @@ class Gen:
         used = set()
         blk = self.block(env, used, 2, -1, "void", r.randint(4, 9))
         fns.append(("main", "void", [], blk[1]))
+        if self.need_nx:
+            fns.append(("nx", "int", [("int", "v")], [("ret", ("bin", "+", ("v", "v"), ("i", 1)))]))
         if r.random() < 0.5:
             r.shuffle(fns)          # declaration order must not matter
         return fns
